@@ -134,6 +134,27 @@ func checkCompURI(col *collector, st *uriStats, w int64, oc ocomp) bool {
 				col.note("C14.uri", "ComponentFromStr(c."+form+"()) != c ("+kind+" component)", w, func() (string, any) {
 					return fmt.Sprintf("component %s: %s()=%q parses back to %s", oc, form, s, ocomp{uint64(back.Typ), back.Val}), rp()
 				})
+			default:
+				// a parsed component is the caller's: changing its value bytes in place (as a caller
+				// stepping a segment or sequence number does) must not change what the next parse of
+				// the same string returns
+				if len(back.Val) > 0 {
+					for i := range back.Val {
+						back.Val[i] ^= 0xff
+					}
+					var again enc.Component
+					var err2 error
+					pi2 := guard(func() { again, err2 = enc.ComponentFromStr(s) })
+					if pi2 != nil || err2 != nil || !sameComp(again, oc) {
+						ok = false
+						col.note("C14.uri", "parsed components share memory: changing one in place changes what the next ComponentFromStr of the same string returns ("+kind+" component)", w, func() (string, any) {
+							return fmt.Sprintf("component %s: %s()=%q parsed, the result's value bytes inverted in place, parsed again: %s (err %v)", oc, form, s, ocomp{uint64(again.Typ), again.Val}, err2), rp()
+						})
+					}
+					for i := range back.Val {
+						back.Val[i] ^= 0xff
+					}
+				}
 			}
 		}
 	}
